@@ -46,7 +46,7 @@ func TestC04_P_ReadSeekModel(t *testing.T) {
 	rapid.Check(t, func(t *rapid.T) {
 		var fc *fileCase
 		if rapid.IntRange(0, 5).Draw(t, "handmade") == 0 {
-			fc = genHandFileDAG(t) // chunks may be empty: several chunk boundaries fall on one offset
+			fc = genHandFileDAG(t, true) // chunks may be empty: several chunk boundaries fall on one offset
 		} else {
 			fc = genFileDAG(t, 0, 200)
 		}
